@@ -22,7 +22,7 @@ RULE = ('histories on one established DBusClientConnection (in-memory transport,
         'applicable event for that serial; pending-call table and virtual-clock timers equal the still-pending calls. '
         'Non-trivial = >=2 calls outstanding at once and an out-of-order, duplicate or unsolicited reply or a deadline '
         'race; distinct = distinct history JSON.')
-ASSUMPTIONS = ['timeout=0/None means no deadline; only positive deadlines are generated',
+ASSUMPTIONS = ['timeout=0 / 0.0 / None all mean "no deadline" (what callRemote documents and does); all three spellings are generated',
                'user callbacks attached by the harness do not raise or re-enter']
 
 
@@ -296,7 +296,7 @@ def history(draw, tier):
         if k == 'call':
             sig, trees = draw(_small_body)
             rs = draw(st.sampled_from(['unchecked', 'unchecked', 'matching', 'mismatching', 'prefix', 'empty']))
-            ops.append(['call', {'sig': sig, 'trees': trees, 'timeout': draw(st.sampled_from([None, None, 1, 2, 5, 0.5])),
+            ops.append(['call', {'sig': sig, 'trees': trees, 'timeout': draw(st.sampled_from([None, None, 1, 2, 5, 0.5, 0, 0.0])),
                                  'rs': rs, 'rs_value': None, 'expect': draw(st.integers(0, 6)) != 0}])
         elif k in ('reply', 'reply2'):
             sig, trees = draw(_small_body)
